@@ -112,6 +112,10 @@ func main() {
 			extra = os.Args[7]
 		}
 		runOracle(os.Args[2], seed, n, os.Args[5], os.Args[6], extra)
+	case "dumpc02": // dumpc02 <seed> <n> <out.json>
+		seed, _ := strconv.ParseUint(os.Args[2], 10, 64)
+		n, _ := strconv.Atoi(os.Args[3])
+		dumpC02(seed, n, os.Args[4])
 	default:
 		die("unknown command %s", os.Args[1])
 	}
